@@ -9,10 +9,23 @@ same rendered trees, the same validity verdict and the same pass / fail / raise 
 
 Oracle (the property itself): every assertion renders without raising, compiles and passes on
 the observed value in the exported-file namespace.
+
+Second kind of case (`"kind": "hist"`, the observer path): a small test case — constructor calls and
+`obj.do(script)` calls on classes of the synthetic module whose attributes, class attributes and
+module attributes hold nested collections that the scripts mutate in place, rebind, share between
+objects — is executed by the real `TestCaseExecutor` with the real `RemoteAssertionTraceObserver`;
+the recorded trace is rendered by the real `assertion_to_cst` after the execution (as Pynguin does).
+Then the statements are replayed in the namespace of an exported test file and every rendered
+assertion is evaluated right after the statement of its position.  The replay also takes a snapshot
+of the live object graph (a heap with identities) after every statement; the Lean model
+(`Model/AssertTrace.lean`) computes the trace from these snapshots — position i is a deep snapshot
+in heap i — and must agree with the implementation on every position: which assertions, the rendered
+trees, validity, pass / fail / raise.  Oracle: every recorded assertion holds at its own position.
 """
 from __future__ import annotations
 
 import collections
+import collections.abc
 import enum
 import fractions
 import math
@@ -64,6 +77,137 @@ def make_local():
     return Loc()
 def gen():
     yield 1
+
+# ---- classes with mutable nested state, driven by scripts (history cases) ----------------------
+_installed_ = []
+def _reset_(static, mod):
+    g = globals()
+    for owner, name in _installed_:
+        if owner is None:
+            g.pop(name, None)
+        elif name in vars(owner):
+            delattr(owner, name)
+    del _installed_[:]
+    for cls, name, value in static or ():
+        setattr(g[cls], name, value)
+        _installed_.append((g[cls], name))
+    for name, value in mod or ():
+        g[name] = value
+        _installed_.append((None, name))
+def _nav_(cur, path):
+    for p in path:
+        if isinstance(cur, (list, tuple)) and cur:
+            cur = cur[p % len(cur)]
+        elif isinstance(cur, dict) and cur:
+            cur = list(cur.values())[p % len(cur)]
+        else:
+            return None
+    return cur
+def _find_(self, root, name, path):
+    if root == "self":
+        start = vars(self).get(name)
+    elif root == "cls":
+        start = vars(type(self)).get(name)
+    else:
+        start = globals().get(name)
+    return _nav_(start, path)
+def _bind_(self, root, name, value):
+    if root == "self":
+        setattr(self, name, value)
+    elif root == "cls":
+        setattr(type(self), name, value)
+        _installed_.append((type(self), name))
+    else:
+        globals()[name] = value
+        _installed_.append((None, name))
+def _hashable_(x):
+    try:
+        hash(x)
+    except TypeError:
+        return False
+    return True
+def _run_(self, script):
+    done = 0
+    ret = None
+    for step in script:
+        op = step[0]
+        if op == "ret":
+            how = step[1]
+            if how == "count":
+                ret = done
+            elif how == "val":
+                ret = step[2]
+            elif how == "self":
+                ret = self
+            elif how == "get":
+                ret = _find_(self, step[2], step[3], step[4])
+            elif how == "box":
+                ret = Box([["items", _find_(self, step[2], step[3], step[4])], ["n", done]])
+            continue
+        if op == "rebind":
+            _bind_(self, step[1], step[2], step[3])
+            done += 1
+            continue
+        if op == "del":
+            if step[1] == "self" and step[2] in vars(self):
+                delattr(self, step[2])
+                done += 1
+            continue
+        t = _find_(self, step[1], step[2], step[3])
+        args = step[4:]
+        if op == "link":
+            other = _find_(self, args[0], args[1], args[2])
+            if isinstance(t, list):
+                t.append(other)
+                done += 1
+            elif isinstance(t, dict):
+                t[len(t)] = other
+                done += 1
+        elif op == "append" and isinstance(t, list):
+            t.append(args[0]); done += 1
+        elif op == "insert0" and isinstance(t, list):
+            t.insert(0, args[0]); done += 1
+        elif op == "pop" and isinstance(t, (list, set)) and t:
+            t.pop(); done += 1
+        elif op == "pop" and isinstance(t, dict) and t:
+            t.popitem(); done += 1
+        elif op == "setitem" and isinstance(t, list) and t and type(args[0]) is int:
+            t[args[0] % len(t)] = args[1]; done += 1
+        elif op == "setitem" and isinstance(t, dict) and _hashable_(args[0]):
+            t[args[0]] = args[1]; done += 1
+        elif op == "add" and isinstance(t, set) and _hashable_(args[0]):
+            t.add(args[0]); done += 1
+        elif op == "clear" and isinstance(t, (list, set, dict)):
+            t.clear(); done += 1
+    return ret
+class Store:
+    label = "store"
+    _hidden = [0]
+    def __init__(self, fields=(), static=(), mod=()):
+        _reset_(static, mod)
+        for name, value in fields:
+            setattr(self, name, value)
+        self._steps = []
+    def do(self, script):
+        return _run_(self, script)
+    @property
+    def view(self):
+        return 1
+class Box:
+    capacity = 4
+    def __init__(self, fields=()):
+        for name, value in fields:
+            setattr(self, name, value)
+    def do(self, script):
+        return _run_(self, script)
+class Pile:
+    def __init__(self, fields=()):
+        for name, value in fields:
+            setattr(self, name, value)
+    def __len__(self):
+        return len(vars(self))
+    def do(self, script):
+        return _run_(self, script)
 '''
 
 OPAQUE_KINDS = ["dict_keys", "function", "list_iterator", "range", "frozenset", "bytearray", "memoryview",
@@ -152,6 +296,200 @@ class NotModelled(Exception):
     pass
 
 
+# ---- history cases: statements, heap snapshots ------------------------------------------------
+HIST_OPAQUE = {
+    "range": "range(3)", "frozenset": "frozenset({1, 2})", "bytearray": "bytearray(b'ab')", "ellipsis": "...",
+    "object": "object()", "sut_plain": ALIAS + ".Plain()", "sut_sized": ALIAS + ".WithLen()",
+    "sut_nested": ALIAS + ".Outer.Inner()", "sut_local": ALIAS + ".make_local()", "list_iterator": "iter([1])",
+    "dict_keys": "{1: 2}.keys()", "deque": "__import__('collections').deque([1, 2])",
+    "fraction": "__import__('fractions').Fraction(1, 3)", "memoryview": "memoryview(b'abc')",
+    "notimplemented": "NotImplemented", "generator": ALIAS + ".gen()",
+}
+# hashable AND with a hash that does not depend on the object's address (the execution and the replay build
+# their own objects: an address-hashed set element would make `set.pop()` / iteration order differ)
+HIST_OPAQUE_HASHABLE = ["range", "frozenset", "ellipsis", "fraction"]
+FIELD_NAMES = ["rows", "tags", "pair", "flat", "cfg", "data"]
+STATIC_NAMES = ["shared", "cache", "limits"]
+MOD_NAMES = ["REG", "TABLE", "state"]
+_COLL_KEY = {list: "l", tuple: "t", set: "S"}
+
+
+def _float_expr(x: float) -> str:
+    if x != x:
+        return "-float('nan')" if math.copysign(1.0, x) < 0 else "float('nan')"
+    if math.isinf(x):
+        return "float('inf')" if x > 0 else "float('-inf')"
+    return repr(x)
+
+
+def py_expr(j) -> str:
+    """Case-JSON value → Python source building it (inside a statement of the test case)."""
+    if j is None:
+        return "None"
+    if j is True or j is False:
+        return repr(j)
+    (k, x), = j.items()
+    if k == "i":
+        v = int(x, 16)
+        return repr(v) if abs(v) < 10 ** 18 else hex(v)
+    if k == "f":
+        return _float_expr(cc.dec_float(x))
+    if k == "c":
+        return f"complex({_float_expr(cc.dec_float(x[0]))}, {_float_expr(cc.dec_float(x[1]))})"
+    if k == "s":
+        return repr("".join(chr(c) for c in x))
+    if k == "b":
+        return repr(bytes(x))
+    if k == "e":
+        return " | ".join(f"{ALIAS}.{x[0]}.{part}" for part in x[1].split("|"))
+    if k == "o":
+        return HIST_OPAQUE[x]
+    if k == "l":
+        return "[" + ", ".join(py_expr(y) for y in x) + "]"
+    if k == "t":
+        return "(" + ", ".join(py_expr(y) for y in x) + ("," if len(x) == 1 else "") + ")"
+    if k == "S":
+        return "{" + ", ".join(py_expr(y) for y in x) + "}" if x else "set()"
+    if k == "d":
+        return "{" + ", ".join(f"{py_expr(a)}: {py_expr(b)}" for a, b in x) + "}"
+    raise ValueError(f"py_expr: {j!r}")
+
+
+def script_expr(x) -> str:
+    """A script / field list of a history case → Python source (values are wrapped as {"v": value})."""
+    if isinstance(x, dict):
+        return py_expr(x["v"])
+    if isinstance(x, list):
+        return "[" + ", ".join(script_expr(y) for y in x) + "]"
+    return repr(x)
+
+
+def stmt_code(i: int, st) -> str:
+    if "new" in st:
+        args = [script_expr(st.get("fields", []))]
+        if st["new"] == "Store":
+            args += [script_expr(st.get("static", [])), script_expr(st.get("mod", []))]
+        return f"var_{i} = {ALIAS}.{st['new']}({', '.join(args)})"
+    return f"var_{i} = var_{st['on']}.do({script_expr(st['script'])})"
+
+
+def ignored_attr(name: str, value) -> bool:
+    """Public data attributes only (the harness's own statement of which attributes are observable)."""
+    return (name.startswith("_") or name.endswith("__") or callable(value)
+            or isinstance(value, (types.ModuleType, staticmethod, classmethod, property)))
+
+
+def type_id(t) -> dict:
+    return {"module": t.__module__, "qual": t.__qualname__.split(".")}
+
+
+class HeapEncoder:
+    """Live objects → the model's heap: containers get addresses (stable over the positions of one
+    replay, objects are kept alive), everything else is an immediate value."""
+
+    def __init__(self):
+        self.addr: dict[int, int] = {}
+        self.keep: list = []
+        self.types: dict = {}
+
+    def item(self, v, cells):
+        t = type(v)
+        if t in (list, tuple, set, dict):
+            a = self.addr.get(id(v))
+            if a is None:
+                a = len(self.addr)
+                self.addr[id(v)] = a
+                self.keep.append(v)
+            if a not in cells:
+                cells[a] = None
+                if t is dict:
+                    cells[a] = {"d": [[self.item(k, cells), self.item(x, cells)] for k, x in v.items()]}
+                else:
+                    cells[a] = {_COLL_KEY[t]: [self.item(x, cells) for x in v]}
+            return {"ref": a}
+        j = enc20(v)
+        if isinstance(j, dict) and "obj" in j:
+            self.types[id(t)] = t
+        return j
+
+    def nval(self, x, cells):
+        d = getattr(x, "__dict__", None)
+        if (x is None or type(x) in (bool, int, float, complex, str, bytes, list, tuple, set, dict)
+                or isinstance(x, enum.Enum) or type(d) is not dict):
+            return {"plain": self.item(x, cells)}
+        t = type(x)
+        self.types[id(t)] = t
+        ln = len(x) if isinstance(x, collections.abc.Sized) else None
+        return {"inst": dict(type_id(t), len=ln,
+                             fields=[[f, self.item(fv, cells)] for f, fv in d.items() if not ignored_attr(f, fv)])}
+
+    def snapshot(self, ns, bound: str, n_vars: int) -> dict:
+        m = sut_module()
+        cells: dict = {}
+        vars_ = [[f"var_{k}", self.nval(ns[f"var_{k}"], cells)] for k in range(n_vars)]
+        mod = [[f, self.nval(v, cells)] for f, v in list(vars(m).items()) if not ignored_attr(f, v)]
+        classes, seen = [], set()
+        for k in range(n_vars):
+            t = type(ns[f"var_{k}"])
+            if t.__module__ == SUT and t not in seen and not isinstance(ns[f"var_{k}"], enum.Enum):
+                seen.add(t)
+                classes.append([type_id(t), [[f, self.nval(v, cells)] for f, v in list(vars(t).items())
+                                             if not ignored_attr(f, v)]])
+        return {"heap": [[a, c] for a, c in sorted(cells.items())], "bound": bound, "vars": vars_, "mod": mod,
+                "classes": classes}
+
+
+def safe_leaves(v, _seen=None):
+    """`c23_common.leaves` for live values that may be cyclic."""
+    seen = set() if _seen is None else _seen
+    if isinstance(v, (list, tuple, set, frozenset, dict)):
+        if id(v) in seen:
+            return
+        seen.add(id(v))
+        for x in (v.items() if isinstance(v, dict) else v):
+            if isinstance(v, dict):
+                yield from safe_leaves(x[0], seen)
+                yield from safe_leaves(x[1], seen)
+            else:
+                yield from safe_leaves(x, seen)
+    else:
+        yield v
+
+
+def canon_expr(j):
+    """Expression JSON with set displays sorted (the iteration order of a set is not semantic)."""
+    if isinstance(j, dict):
+        out = {k: canon_expr(v) for k, v in j.items()}
+        if "S" in out and isinstance(out["S"], list):
+            out["S"] = sorted(out["S"], key=vcommon.jdump)
+        return out
+    if isinstance(j, list):
+        return [canon_expr(x) for x in j]
+    return j
+
+
+def _dotted(j):
+    if isinstance(j, dict) and set(j) == {"n"}:
+        return j["n"]
+    if isinstance(j, dict) and set(j) == {"attr", "a"}:
+        head = _dotted(j["attr"])
+        return None if head is None else head + "." + j["a"]
+    return None
+
+
+def canon_stmt(st):
+    """Rendered statement JSON: the source path as one dotted name (the model treats reference paths as
+    atomic names of the namespace), set displays sorted."""
+    if not isinstance(st, dict):
+        return st
+    out = canon_expr(st)
+    key = "l" if out.get("k") in ("cmp", "approx") else "v"
+    d = _dotted(out.get(key))
+    if d is not None:
+        out[key] = {"n": d}
+    return out
+
+
 def stmt2j(node):
     """The rendered `assert` statement → the model's Stmt JSON."""
     import libcst as cst
@@ -188,28 +526,40 @@ KIND = {"FloatAssertion": "float", "ObjectAssertion": "object", "TypeNameAsserti
 class C20(PropertyCheck):
     prop_id = "C20"
     prop_modules = ["PynguinModel.Props.C20"]
-    extra_modules = ["PynguinModel.Model.AssertRender"]
+    extra_modules = ["PynguinModel.Model.AssertRender", "PynguinModel.Model.AssertTrace"]
     driver = "Driver/C20.lean"
-    n_quick = 4000
-    n_thorough = 100000
+    n_quick = 2600
+    n_thorough = 50000
     n_search = 30000
     rule = ("random observed values: nested lists/tuples/sets/dicts (depth ≤ 6, so also beyond is_assertable's "
             "limit), ints up to 4500 digits, all float specials/subnormals/random bit patterns, str/bytes with "
             "arbitrary code points, complex, plain / mixin / Flag enum members, 21 kinds of non-assertable objects "
             "(unbound builtin types, module-level / nested / function-local SUT classes, foreign types); "
             "non-trivial = distinct value that is a collection, a float, a complex, an enum, an object, or a "
-            "negative / huge int")
+            "negative / huge int; 10 % history cases: test cases of 2-6 statements (constructors of three classes of "
+            "the synthetic module, `obj.do(script)` calls) executed by the real TestCaseExecutor + "
+            "RemoteAssertionTraceObserver, scripts mutate nested containers held by instance / class / module "
+            "attributes in place (append, insert, pop, setitem, add, clear at a path), rebind and delete attributes, "
+            "share containers between attributes and objects, return primitives / the object / a new object / a "
+            "container; every recorded assertion is evaluated at its position in a replay")
     assumptions = [
         "repr/str of a finite float and float(text), repr / evaluated_value of str and bytes are inverse "
         "(checked on every sample through exec of the printed code)",
         "the namespace of an exported test file binds the module alias, pytest and the test's variables",
         "enum members with a data mixin (IntEnum, StrEnum, int/str mixins) and Flag composites are not "
         "modelled (checked by the oracle only)",
-        "assertion sources are plain variable names (dotted attribute paths are not modelled)",
+        "a dotted assertion source (`var_0.rows`, `alias.Store.shared`) is an atomic name of the model's namespace: "
+        "its resolution by attribute access is Python's (done by exec in the replay)",
+        "history cases: the statements' effect on the object graph is not modelled (module under test); the model "
+        "gets the heap snapshot of every position from the replay",
+        "history cases: test variables are never bound to enum members (their class would become a static-field "
+        "owner) or to type / module objects; statements do not raise",
     ]
 
     # ------------------------------------------------------------------------------------------
     def gen_case(self, rng):
+        if rng.random() < self.hist_share:
+            return self._gen_hist(rng)
         r = rng.random()
         if r < 0.12:
             v = {"f": cc.enc_float(cc.rand_float(rng))}
@@ -259,6 +609,298 @@ class C20(PropertyCheck):
             return {"S": [self._rand(rng, depth - 1, True) for _ in range(n)]}
         return {"d": [[self._rand(rng, depth - 1, True), self._rand(rng, depth - 1, False)] for _ in range(n)]}
 
+    # ---- history cases ------------------------------------------------------------------------
+    hist_share = 0.1
+
+    def _hscalar(self, rng, hashable):
+        r = rng.random()
+        if r < 0.36:
+            return {"i": hex(rng.randint(-5, 20))}
+        if r < 0.50:
+            return cc.enc("".join(rng.choice("abxyz' \\é") for _ in range(rng.choice([0, 1, 2, 3]))))
+        if r < 0.58:
+            return None
+        if r < 0.66:
+            return rng.random() < 0.5
+        if r < 0.71:
+            return cc.enc(cc.rand_bytes(rng))
+        if r < 0.79:
+            return {"e": list(rng.choice(PLAIN_ENUMS))}
+        if r < 0.83:
+            return cc.enc(cc.rand_int(rng))
+        if r < 0.91:
+            # hash(nan) depends on the object's address (CPython ≥ 3.10): as a set element / dict key it would
+            # make iteration and `pop()` order differ between the execution and the replay
+            x, y = cc.rand_float(rng), cc.rand_float(rng)
+            if hashable:
+                x, y = (1.5 if x != x else x), (-0.0 if y != y else y)
+            return cc.enc(x) if r < 0.88 else cc.enc(complex(x, y))
+        if r < 0.913:
+            return {"e": list(rng.choice(ODD_ENUMS))}
+        return {"o": rng.choice(HIST_OPAQUE_HASHABLE if hashable else sorted(HIST_OPAQUE))}
+
+    def _hval(self, rng, depth, hashable=False):
+        if depth <= 0 or rng.random() < 0.2:
+            return self._hscalar(rng, hashable)
+        k = "t" if hashable else rng.choice(["l", "l", "l", "d", "d", "t", "S"])
+        n = rng.choice([0, 1, 1, 2, 2, 3])
+        if k == "l":
+            return {"l": [self._hval(rng, depth - 1) for _ in range(n)]}
+        if k == "t":
+            return {"t": [self._hval(rng, depth - 1, hashable) for _ in range(n)]}
+        if k == "S":
+            return {"S": [self._hval(rng, depth - 1, True) for _ in range(n)]}
+        return {"d": [[self._hval(rng, min(depth - 1, 1), True), self._hval(rng, depth - 1)] for _ in range(n)]}
+
+    @staticmethod
+    def _sim_module():
+        m = types.ModuleType("c20sim")
+        exec(SUT_SOURCE, m.__dict__)  # noqa: S102 - the harness's own synthetic module
+        return m
+
+    @staticmethod
+    def _targets(obj, sim):
+        """Every container reachable the way `_nav_` walks: (root, name, path, container)."""
+        out = []
+
+        def walk(root, name, v, path):
+            if isinstance(v, (list, tuple, dict, set)):
+                out.append((root, name, list(path), v))
+            if len(path) >= 4:
+                return
+            if isinstance(v, (list, tuple)):
+                for i, x in enumerate(v):
+                    walk(root, name, x, [*path, i])
+            elif isinstance(v, dict):
+                for i, x in enumerate(v.values()):
+                    walk(root, name, x, [*path, i])
+        for name, v in vars(obj).items():
+            if not ignored_attr(name, v):
+                walk("self", name, v, [])
+        for name, v in vars(type(obj)).items():
+            if not ignored_attr(name, v):
+                walk("cls", name, v, [])
+        for name, v in vars(sim).items():
+            if not ignored_attr(name, v):
+                walk("mod", name, v, [])
+        return out
+
+    def _gen_script(self, rng, obj, sim):
+        steps = []
+        targets = self._targets(obj, sim)
+        for _ in range(rng.choice([1, 1, 2, 2, 3])):
+            r = rng.random()
+            if r < 0.12 or not targets:
+                root = rng.choice(["self", "self", "cls", "mod"])
+                name = rng.choice({"self": FIELD_NAMES, "cls": STATIC_NAMES, "mod": MOD_NAMES}[root])
+                steps.append(["rebind", root, name, {"v": self._hval(rng, rng.choice([0, 1, 2, 3]))}])
+                continue
+            if r < 0.15:
+                steps.append(["del", "self", rng.choice(FIELD_NAMES)])
+                continue
+            inner = [t for t in targets if t[2] and not isinstance(t[3], tuple)]
+            outer = [t for t in targets if not t[2] and not isinstance(t[3], tuple)]
+            pool = inner if inner and (rng.random() < 0.7 or not outer) else outer
+            if not pool:
+                steps.append(["rebind", "self", rng.choice(FIELD_NAMES), {"v": self._hval(rng, 2)}])
+                continue
+            root, name, path, cont = rng.choice(pool)
+            if isinstance(cont, list):
+                op = rng.choice(["append", "append", "append", "insert0", "pop", "setitem", "clear", "link"])
+            elif isinstance(cont, dict):
+                op = rng.choice(["setitem", "setitem", "setitem", "pop", "clear", "link"])
+            else:
+                op = rng.choice(["add", "add", "add", "pop", "clear"])
+            if op in ("append", "insert0"):
+                steps.append([op, root, name, path, {"v": self._hval(rng, rng.choice([0, 0, 1, 2]))}])
+            elif op == "add":
+                steps.append([op, root, name, path, {"v": self._hval(rng, rng.choice([0, 0, 1]), True)}])
+            elif op == "setitem" and isinstance(cont, list):
+                steps.append([op, root, name, path, rng.randint(0, 3), {"v": self._hval(rng, rng.choice([0, 1, 2]))}])
+            elif op == "setitem":
+                steps.append([op, root, name, path, {"v": self._hval(rng, rng.choice([0, 0, 1]), True)},
+                              {"v": self._hval(rng, rng.choice([0, 1, 2]))}])
+            elif op == "link":
+                r2, n2, p2, _ = rng.choice(targets)
+                steps.append([op, root, name, path, r2, n2, p2])
+            else:
+                steps.append([op, root, name, path])
+        r = rng.random()
+        if r < 0.5:
+            steps.append(["ret", "count"])
+        elif r < 0.68:
+            v = self._hval(rng, rng.choice([0, 0, 1]))
+            if isinstance(v, dict) and "e" in v:
+                v = None  # a variable bound to an enum member makes the enum class a "static field owner"
+            steps.append(["ret", "val", {"v": v}])
+        elif r < 0.76:
+            steps.append(["ret", "self"])
+        elif r < 0.88 and targets:
+            root, name, path, _ = rng.choice(targets)
+            steps.append(["ret", "box", root, name, path])
+        elif targets:
+            root, name, path, _ = rng.choice(targets)
+            steps.append(["ret", "get", root, name, path])
+        return steps
+
+    def _gen_hist(self, rng):
+        sim = self._sim_module()
+        ns = {ALIAS: sim}
+        stmts = []
+
+        def fields():
+            names = rng.sample(FIELD_NAMES, rng.choice([1, 2, 2, 3]))
+            return [[n, {"v": self._hval(rng, rng.choice([0, 2, 2, 3, 3, 4]))}] for n in names]
+
+        def add(st):
+            stmts.append(st)
+            exec(stmt_code(len(stmts) - 1, st), ns)  # noqa: S102 - simulation on a private copy of the module
+
+        first = {"new": "Store", "fields": fields(),
+                 "static": [["Store", n, {"v": self._hval(rng, rng.choice([0, 2, 3]))}]
+                            for n in rng.sample(STATIC_NAMES, rng.choice([0, 0, 1, 2]))],
+                 "mod": [[n, {"v": self._hval(rng, rng.choice([0, 2, 3]))}]
+                         for n in rng.sample(MOD_NAMES, rng.choice([0, 0, 1, 2]))]}
+        add(first)
+        objs = [0]
+        for _ in range(rng.choice([1, 2, 2, 3, 4])):
+            if rng.random() < 0.15:
+                add({"new": rng.choice(["Box", "Box", "Pile"]), "fields": fields()})
+                objs.append(len(stmts) - 1)
+                continue
+            on = rng.choice(objs)
+            add({"on": on, "script": self._gen_script(rng, ns[f"var_{on}"], sim)})
+            got = ns[f"var_{len(stmts) - 1}"]
+            if type(got).__name__ in ("Store", "Box", "Pile") and type(got).__module__ == "c20sim":
+                objs.append(len(stmts) - 1)
+        return {"kind": "hist", "stmts": stmts, "prec": rng.choice([0.01, 0.01, 0.5, 1e-9])}
+
+    _executor = None
+
+    def _hist_executor(self):
+        if self._executor is None:
+            import pynguin.configuration as config
+            from pynguin.instrumentation.tracer import SubjectProperties
+            from pynguin.testcase.execution import TestCaseExecutor
+            config.configuration.module_name = SUT
+            sut_module()
+            type(self)._executor = TestCaseExecutor(SubjectProperties(), maximum_test_execution_timeout=300,
+                                                    test_execution_time_per_statement=100)
+        return self._executor
+
+    def _type_facts(self, t, ns):
+        path = [t.__qualname__] if t.__module__ == "builtins" else [ALIAS, *t.__qualname__.split(".")]
+        try:
+            reaches = eval(".".join(path) if t.__module__ != "builtins" else t.__qualname__, dict(ns)) is t  # noqa: S307
+        except Exception:
+            reaches = False
+        return type_id(t), path, reaches
+
+    def _impl_hist(self, case):
+        import libcst as cst
+        import pytest
+        import pynguin.configuration as config
+        import pynguin.testcase.testcase as tcm
+        from pynguin.assertion.assertion_to_ast import assertion_to_cst
+        from pynguin.assertion.assertiontraceobserver import RemoteAssertionTraceObserver
+        config.configuration.module_name = SUT
+        m = sut_module()
+        codes = [stmt_code(i, st) for i, st in enumerate(case["stmts"])]
+        # 1. the real executor with the real observer
+        test_case = tcm.TestCase()
+        for i, code in enumerate(codes):
+            test_case.add_statement(tcm.Statement(node=cst.parse_statement(code), bound_variable=f"var_{i}"))
+        executor = self._hist_executor()
+        with executor.temporarily_add_remote_observer(RemoteAssertionTraceObserver()):
+            result = executor.execute(test_case)
+        if result.timeout or result.has_test_exceptions():
+            raise RuntimeError(f"history case did not execute cleanly: timeout={result.timeout} "
+                               f"exceptions={result.exceptions}")
+        recorded = result.assertion_trace.trace
+        # 2. render (after the whole execution, as the assertion generator / the exporter do)
+        positions = []
+        # (a position beyond the last statement can only come from a mis-numbered trace: keep it visible)
+        for i in range(max([len(codes), *[k + 1 for k in recorded]])):
+            recs = []
+            for a in recorded.get(i, []):
+                kind = KIND[type(a).__name__]
+                self.count("hist-assertion:" + kind)
+                r = {"kind": kind, "src": a.source}
+                try:
+                    node = assertion_to_cst(a, float_precision=case["prec"])
+                    r["stmt"] = canon_stmt(stmt2j(node))
+                    r["code"] = cst.Module(body=[node]).code
+                except Exception as e:  # rendering must never fail
+                    r["err"] = type(e).__name__
+                    r["detail"] = str(e)[:80]
+                recs.append(r)
+            positions.append(recs)
+        # 3. replay in the namespace of an exported test file; snapshot the live object graph per position
+        ns = {ALIAS: m, "pytest": pytest}
+        enc = HeapEncoder()
+        snaps, modelled, pending = [], True, []
+        for i in range(len(positions)):
+            if i < len(codes):
+                exec(compile(codes[i], "<statement>", "exec"), ns)  # noqa: S102 - our own statement
+                try:
+                    snaps.append(enc.snapshot(ns, f"var_{i}", i + 1))
+                except NotModelled:
+                    modelled = False
+            for r in pending:
+                if "later" not in r and self._passes(r["compiled"], ns) is True:
+                    r["later"] = i
+            for r in positions[i]:
+                try:
+                    live = eval(r["src"], dict(ns))  # noqa: S307 - a reference path of the namespace
+                except Exception:
+                    live = None
+                try:
+                    r["observed"] = repr(live)[:120]
+                except Exception:  # e.g. an int beyond the str() digit limit
+                    r["observed"] = "<" + type(live).__name__ + ">"
+                if "err" in r:
+                    r["class"] = self._classify_failure(live, r)
+                    continue
+                try:
+                    r["compiled"] = compile(r["code"], "<assertion>", "exec")
+                    r["valid"] = True
+                except (SyntaxError, ValueError) as e:
+                    r["valid"], r["eval"], r["detail"] = False, None, str(e)[:80]
+                    r["class"] = self._classify_failure(live, r)
+                    continue
+                r["eval"] = self._passes(r["compiled"], ns, r)
+                if r["eval"] is not True:
+                    pending.append(r)
+                    r["class"] = self._classify_failure(live, r)
+        for recs in positions:
+            for r in recs:
+                r.pop("compiled", None)
+                if "later" in r and r["class"].endswith("-assertion-fails"):
+                    r["class"] = "shows-later-state"
+        out = {"hist": True, "positions": positions, "codes": codes}
+        line = None
+        if modelled:
+            facts = [self._type_facts(t, ns) for t in [list, tuple, set, dict, *enc.types.values()]]
+            line = vcommon.jdump({
+                "op": "hist", "prec": cc.enc_float(case["prec"]), "lim": INT_LIMIT, "alias": ALIAS,
+                "te": {"moduleName": SUT, "resolves": [tid for tid, _, ok in facts if ok]},
+                "ns": {"enums": [], "types": [[path, tid] for tid, path, ok in facts if ok], "pytest": True},
+                "positions": snaps})
+        m._reset_((), ())
+        return out, line
+
+    @staticmethod
+    def _passes(compiled, ns, rec=None):
+        try:
+            exec(compiled, dict(ns))  # noqa: S102 - our own rendered assertion
+            return True
+        except AssertionError:
+            return False
+        except Exception as e:
+            if rec is not None:
+                rec["detail"] = type(e).__name__ + ": " + str(e)[:60]
+            return None
+
     # ------------------------------------------------------------------------------------------
     def _namespace(self, v, variant):
         import pytest
@@ -276,6 +918,11 @@ class C20(PropertyCheck):
         from pynguin.assertion.assertion_to_ast import assertion_to_cst
         from pynguin.assertion.assertiontraceobserver import RemoteAssertionTraceObserver
         from pynguin.utils.type_utils import is_assertable
+        if not hasattr(self, "_lines"):
+            self._lines = {}
+        if case.get("kind") == "hist":
+            out, self._lines[id(case)] = self._impl_hist(case)
+            return out
         config.configuration.module_name = SUT
         v = dec20(case["v"])
         out = {"assertable": bool(is_assertable(v)) and not isinstance(v, float)}
@@ -356,7 +1003,31 @@ class C20(PropertyCheck):
             "te": {"moduleName": SUT, "resolves": [io["type"]] if io["resolves"] else []}, "alias": ALIAS,
             "ns": {"enums": enums, "types": [[io["path"], io["type"]]] if io["resolves"] else [], "pytest": True}})
 
+    def _compare_hist(self, io, mo):
+        mp = mo.get("positions")
+        if mp is None or len(mp) != len(io["positions"]):
+            return False
+        key = lambda r: (r.get("src"), r.get("kind"))  # noqa: E731
+        for real, model in zip(io["positions"], mp):
+            real, model = sorted(real, key=key), sorted(model, key=key)
+            if [key(r) for r in real] != [key(r) for r in model]:
+                return False
+            for a, b in zip(real, model):
+                if "err" in a:
+                    if a["err"] == "ValueError":
+                        if b.get("err") != "ValueError":
+                            return False
+                    elif b.get("valid") is not False:
+                        return False
+                    continue
+                if ("err" in b or a["stmt"] != canon_stmt(b.get("stmt")) or a["valid"] != b.get("valid")
+                        or a["eval"] != b.get("eval")):
+                    return False
+        return True
+
     def compare(self, case, io, mo):
+        if io.get("hist"):
+            return self._compare_hist(io, mo)
         if mo.get("assertable") != io["assertable"]:
             return False
         ma = mo.get("assertions")
@@ -381,7 +1052,7 @@ class C20(PropertyCheck):
     @staticmethod
     def _classify_failure(v, a):
         kind = a["kind"]
-        leaves = list(cc.leaves(v))
+        leaves = list(safe_leaves(v))
         if kind == "float":
             if "err" in a:
                 return "negative-zero-invalid-token" if cc.is_negzero(v) else "render-" + a["err"]
@@ -404,7 +1075,24 @@ class C20(PropertyCheck):
             return "type-not-resolvable"
         return kind + "-assertion-fails"
 
+    def _oracle_hist(self, case, io):
+        fs = []
+        for i, recs in enumerate(io["positions"]):
+            for r in recs:
+                if "err" in r or not r.get("valid") or r.get("eval") is not True:
+                    what = (f"test case {' ; '.join(io['codes'])[:400]}: assertion recorded for position {i} on "
+                            f"{r['src']} (value there: {r.get('observed')}): "
+                            + (f"rendering raised {r['err']} ({r.get('detail')})" if "err" in r else
+                               f"`{r['code'].strip()[:200]}` → valid={r.get('valid')} passes={r.get('eval')} "
+                               f"{r.get('detail', '')}")
+                            + (f"; it holds only after statement {r['later']} (the expected value is that of a "
+                               f"later state)" if "later" in r else ""))
+                    fs.append(Failure({"kind": r["kind"], "class": r["class"]}, what))
+        return fs
+
     def oracle(self, case, io):
+        if io.get("hist"):
+            return self._oracle_hist(case, io)
         if case["ns"] != "export":
             return []  # the property speaks about the exported file's namespace
         v = dec20(case["v"])
@@ -420,6 +1108,16 @@ class C20(PropertyCheck):
         return fs
 
     def classify(self, case, io):
+        if io.get("hist"):
+            self.count("kind:hist")
+            scripts = [st["script"] for st in case["stmts"] if "script" in st]
+            inner = any(step[0] in ("append", "insert0", "pop", "setitem", "add", "clear", "link") and step[3]
+                        for sc in scripts for step in sc)
+            if inner:
+                self.count("hist:inner-container-mutated-in-place")
+            if any(step[0] == "link" or step[:2] == ["ret", "box"] for sc in scripts for step in sc):
+                self.count("hist:shared-container")
+            return vcommon.jdump(case["stmts"]) if scripts else None
         v = case["v"]
         if isinstance(v, dict):
             (k, x), = v.items()
